@@ -1,7 +1,132 @@
+import MythVerif.Model.Bulk
+import MythVerif.Model.ParFor
+import MythVerif.Model.TaskGroup
 import Driver.Util
-/-! `drv_bulk`: stub, to be filled in -/
+/-!
+`drv_bulk`: the C17 models behind the line protocol of `harness/bulk_unit.c` and
+`harness/bulk_mtbb.cc`.
+
+```
+bulk various|many N IDS RES ATTRS FSTRIDE ASTRIDE ISTRIDE RSTRIDE ATSTRIDE FK
+    -> sp:a:c:b at:OFF|- lf:I:FOFF:AOFF cl:K:AOFF … jn:a:c:b | ids=… | res=… | guard=0 ro=1 ret=0 done=N
+pfor idx2|idx3|grain|range FIRST LAST STEP GRAIN
+    -> c:I … | k:LO:HI … | returned      (or DIVERGES)
+tg SIZE… [w SIZE… ]*            (one `wait` per `w` and one at the end)
+    -> per round: occ=… blk=C:OFF,… ch=SIZE:USED,… ord=… joined=… after=0;256:0
+```
+Addresses are byte offsets from the base of their array (the model is run with all bases 0;
+the effect constructors keep the arrays apart).  Events are printed in one-worker order; for
+runs on several workers the check sorts the tokens of both sides.
+-/
 namespace Driver.Bulk
-def run (_args : List String) : IO UInt32 := do
-  IO.eprintln "drv_bulk: not implemented"
-  return 2
+open MythVerif MythVerif.Bulk
+
+def commaSep (l : List String) : String := ",".intercalate l
+
+def dedupSorted (l : List Nat) : List Nat :=
+  (l.toArray.qsort (· < ·)).toList.eraseDups
+
+/-- index of the test function stored in function slot `j` of the harness' table -/
+def fnOfSlot (j : Nat) : Nat := (j * 5 + 2) % 4
+
+def bulkLine (kind : String) (n : Nat) (ids res attrs : Bool)
+    (fs as is rs ats fk : Nat) : String :=
+  let fs' := if kind == "many" then 0 else fs
+  let p : Params := { ids := if ids then some 0 else none, results := if res then some 0 else none,
+                      attrs := if attrs then some 0 else none, funcs := 0, args := 0,
+                      idStride := is, attrStride := ats, funcStride := fs', argStride := as,
+                      resStride := rs }
+  match variousF p (fuelFor n) n with
+  | none => "DIVERGES"
+  | some t =>
+    let evs := t.seq
+    let fnIdx (faddr : Nat) : Nat :=
+      if kind == "many" then fk else fnOfSlot (if fs' = 0 then 0 else faddr / fs')
+    let toks := evs.flatMap fun
+      | .split a c b => [s!"sp:{a}:{c}:{b}"]
+      | .attr (some o) _ => [s!"at:{o}"]
+      | .attr none _ => ["at:-"]
+      | .call f x i => [s!"lf:{i}:{f}:{x}", s!"cl:{fnIdx f}:{x}"]
+      | .joined a c b => [s!"jn:{a}:{c}:{b}"]
+      | _ => []
+    let idA := dedupSorted (evs.filterMap Eff.idAddr)
+    let rsA := dedupSorted (evs.filterMap Eff.resAddr)
+    Driver.joinSp toks ++ s!" | ids={commaSep (idA.map toString)} | res={commaSep (rsA.map toString)}" ++
+      s!" | guard=0 ro=1 ret=0 done={n}"
+
+open MythVerif.ParFor in
+def pforLine (form : String) (first last step grain : Int) : String :=
+  let fuel := ParFor.fuelFor (last - first)
+  let r : Option (FJ ParFor.Ev) :=
+    match form with
+    | "idx2" => parFor first last fuel
+    | "idx3" => parForStep first last step fuel
+    | "grain" => parForGrain first last step grain fuel
+    | "range" => rangeF grain fuel first last
+    | _ => none
+  match r with
+  | none => "DIVERGES"
+  | some t =>
+    let cs := (ParFor.calls t.seq).map fun i => s!"c:{i}"
+    let ks := (ParFor.chunks t.seq).map fun c => s!"k:{c.1}:{c.2}"
+    Driver.joinSp cs ++ " | " ++ Driver.joinSp ks ++ " | returned"
+
+open MythVerif.TaskGroup in
+def tgRound (cfg : Cfg) (g : TG) (sizes : List Nat) : TG × String :=
+  let g1 := g.runs cfg sizes
+  let occ := g1.tasks.nodes.map fun n => toString n.length
+  let blk := g1.blocks.map fun b => s!"{b.chunk}:{b.off}"
+  let ch := g1.mem.chunks.map fun c => s!"{c.1}:{c.2}"
+  let base := g.next
+  let ord := g1.tasks.nodes.flatten.map fun t => toString (t - base)
+  let (joined, g2) := g1.wait cfg
+  let occ2 := g2.tasks.nodes.map fun n => toString n.length
+  let ch2 := g2.mem.chunks.map fun c => s!"{c.1}:{c.2}"
+  (g2, s!"occ={commaSep occ} blk={commaSep blk} ch={commaSep ch} ord={commaSep ord} " ++
+       s!"joined={joined.length} after={commaSep occ2};{commaSep ch2}")
+
+def splitOnW (ws : List String) : List (List String) :=
+  ws.foldr (fun w acc =>
+    match acc with
+    | [] => if w == "w" then [[], []] else [[w]]
+    | cur :: rest => if w == "w" then [] :: cur :: rest else (w :: cur) :: rest) [[]]
+
+open MythVerif.TaskGroup in
+def tgLine (cfg : Cfg) (ws : List String) : String :=
+  let rounds := splitOnW ws
+  let (_, outs) := rounds.foldl (fun (acc : TG × List String) r =>
+    let sizes := r.filterMap String.toNat?
+    let (g', o) := tgRound cfg acc.1 sizes
+    (g', acc.2 ++ [o])) (TG.init cfg, [])
+  " || ".intercalate outs
+
+def b01 (s : String) : Bool := s != "0"
+
+def step (cfg : TaskGroup.Cfg) (line : String) : String :=
+  match Driver.words line with
+  | ["bulk", kind, n, ids, res, attrs, fs, as, is, rs, ats, fk] =>
+    match n.toNat?, fs.toNat?, as.toNat?, is.toNat?, rs.toNat?, ats.toNat?, fk.toNat? with
+    | some n, some fs, some as, some is, some rs, some ats, some fk =>
+      bulkLine kind n (b01 ids) (b01 res) (b01 attrs) fs as is rs ats fk
+    | _, _, _, _, _, _, _ => "bad-op"
+  | ["pfor", form, first, last, st, grain] =>
+    match first.toInt?, last.toInt?, st.toInt?, grain.toInt? with
+    | some f, some l, some s, some g => pforLine form f l s g
+    | _, _, _, _ => "bad-op"
+  | "tg" :: ws => tgLine cfg ws
+  | _ => "bad-op"
+
+/-- `drv_bulk [CAP CHUNK]`: the two compile-time constants of `task_group.h` as the harness
+    reports them (default 8 and 256) -/
+def run (args : List String) : IO UInt32 := do
+  let cfg : TaskGroup.Cfg :=
+    match args.map String.toNat? with
+    | [some cap, some chunk] => { cap, chunk }
+    | _ => {}
+  let stdin ← IO.getStdin
+  let _ ← Driver.forLines stdin () fun _ line => do
+    IO.println (step cfg line)
+    pure ()
+  return 0
+
 end Driver.Bulk
